@@ -16,9 +16,14 @@ pub enum Verdict {
 
 pub struct Solver {
     pub name: String,
-    child: Child,
+    child: std::sync::Arc<std::sync::Mutex<Child>>,
     stdin: ChildStdin,
     stdout: BufReader<ChildStdout>,
+    /// hard deadline (ms since start) of the outstanding query, 0 = none; enforced by a watchdog thread
+    deadline: std::sync::Arc<std::sync::atomic::AtomicU64>,
+    alive: std::sync::Arc<std::sync::atomic::AtomicBool>,
+    timeout_ms: u64,
+    pub killed: u64,
     ctr: u64,
     pub queries: u64,
     pub sat: u64,
@@ -26,6 +31,8 @@ pub struct Solver {
     pub inconclusive: u64,
     pub time: Duration,
     pub last_output: Vec<String>,
+    t0: Instant,
+    dead: bool,
 }
 
 impl Solver {
@@ -59,11 +66,34 @@ impl Solver {
             .unwrap_or_else(|e| panic!("cannot spawn {which}: {e}"));
         let stdin = child.stdin.take().unwrap();
         let stdout = BufReader::new(child.stdout.take().unwrap());
+        let child = std::sync::Arc::new(std::sync::Mutex::new(child));
+        let deadline = std::sync::Arc::new(std::sync::atomic::AtomicU64::new(0));
+        let alive = std::sync::Arc::new(std::sync::atomic::AtomicBool::new(true));
+        {
+            // watchdog: the solver's own soft timeout is not always honoured inside nonlinear arithmetic
+            let (c, d, a) = (child.clone(), deadline.clone(), alive.clone());
+            let t0 = Instant::now();
+            std::thread::spawn(move || loop {
+                std::thread::sleep(Duration::from_millis(250));
+                if !a.load(std::sync::atomic::Ordering::SeqCst) {
+                    break;
+                }
+                let dl = d.load(std::sync::atomic::Ordering::SeqCst);
+                if dl != 0 && (t0.elapsed().as_millis() as u64) > dl {
+                    let _ = c.lock().unwrap().kill();
+                    d.store(0, std::sync::atomic::Ordering::SeqCst);
+                }
+            });
+        }
         let mut s = Solver {
             name: which.to_string(),
             child,
             stdin,
             stdout,
+            deadline,
+            alive,
+            timeout_ms,
+            killed: 0,
             ctr: 0,
             queries: 0,
             sat: 0,
@@ -71,27 +101,49 @@ impl Solver {
             inconclusive: 0,
             time: Duration::ZERO,
             last_output: vec![],
+            t0: Instant::now(),
+            dead: false,
         };
+        s.t0 = Instant::now();
         s.raw("(set-logic ALL)\n(set-option :produce-models true)\n");
         s
+    }
+    fn respawn(&mut self) {
+        let fresh = Solver::spawn(&self.name, self.timeout_ms);
+        let (q, sa, un, inc, t, k) = (self.queries, self.sat, self.unsat, self.inconclusive, self.time, self.killed);
+        *self = fresh;
+        self.queries = q;
+        self.sat = sa;
+        self.unsat = un;
+        self.inconclusive = inc;
+        self.time = t;
+        self.killed = k + 1;
     }
 
     /// Sends a script, returns all output lines up to the end marker.
     pub fn raw(&mut self, script: &str) -> Vec<String> {
+        if self.dead {
+            self.respawn();
+        }
         self.ctr += 1;
         let marker = format!("END-{}", self.ctr);
         let t0 = Instant::now();
-        self.stdin.write_all(script.as_bytes()).unwrap();
-        self.stdin
-            .write_all(format!("\n(echo \"{marker}\")\n").as_bytes())
-            .unwrap();
-        self.stdin.flush().unwrap();
+        // hard deadline: a few soft timeouts (a script may contain several check-sats) plus slack
+        let dl = self.t0.elapsed().as_millis() as u64 + 3 * self.timeout_ms + 5_000;
+        self.deadline.store(dl, std::sync::atomic::Ordering::SeqCst);
+        let w = self.stdin.write_all(script.as_bytes()).and_then(|_| self.stdin.write_all(format!("\n(echo \"{marker}\")\n").as_bytes())).and_then(|_| self.stdin.flush());
+        if w.is_err() {
+            self.dead = true;
+            self.deadline.store(0, std::sync::atomic::Ordering::SeqCst);
+            return vec!["(error \"solver died\")".to_string()];
+        }
         let mut out = vec![];
         loop {
             let mut line = String::new();
             let n = self.stdout.read_line(&mut line).unwrap_or(0);
             if n == 0 {
-                out.push("(error \"solver died\")".to_string());
+                out.push("(error \"solver died or was killed by the watchdog\")".to_string());
+                self.dead = true;
                 break;
             }
             let l = line.trim_end().to_string();
@@ -100,6 +152,7 @@ impl Solver {
             }
             out.push(l);
         }
+        self.deadline.store(0, std::sync::atomic::Ordering::SeqCst);
         self.time += t0.elapsed();
         out
     }
@@ -152,9 +205,12 @@ impl Solver {
 
 impl Drop for Solver {
     fn drop(&mut self) {
+        self.alive.store(false, std::sync::atomic::Ordering::SeqCst);
         let _ = self.stdin.write_all(b"(exit)\n");
-        let _ = self.child.kill();
-        let _ = self.child.wait();
+        if let Ok(mut c) = self.child.lock() {
+            let _ = c.kill();
+            let _ = c.wait();
+        }
     }
 }
 
